@@ -901,10 +901,10 @@ def gen_cases(ck):
                 (LLN if group_of(n)[1] == "ll" else XYZN)[group_of(n)[0]]) for n in h]
             cases.append(gen_case(rng, prov=dict(p), ops=names))
     # (b') fine regional meshes (all elements tiny) over the whole provenance lattice
-    for i in range(72 if quick else 480):
+    for i in range(48 if quick else 480):
         cases.append(gen_case(rng, prov=dict(provs[i % len(provs)]), fine=True))
     # (c) free random cases (bigger meshes in the thorough tier)
-    for i in range(150 if quick else 1500):
+    for i in range(110 if quick else 1500):
         cases.append(gen_case(rng, big=(not quick and i % 10 == 0)))
     return cases
 
